@@ -1,5 +1,15 @@
 #!/bin/sh
 # builds the model driver from the extracted model (model.ml/.mli are produced by coq/Extract.v)
+# and the area modules ops_*.ml (each defines `run : Sx.s list -> Sx.s option`, raising
+# Ops_core.Unhandled or returning None for operations it does not know).
 set -e
 cd "$(dirname "$0")"
-ocamlfind ocamlopt -O3 -w -a model.mli model.ml sx.ml driver.ml -o driver 2>/dev/null || ocamlfind ocamlopt -w -a model.mli model.ml sx.ml driver.ml -o driver
+AREAS=$(ls ops_*.ml | sed 's/\.ml$//' | sort | awk '{ if ($0=="ops_core") print "0 " $0; else print "1 " $0 }' | sort | cut -d' ' -f2)
+{
+  printf 'let all : (Sx.s list -> Sx.s option) list = ['
+  for a in $AREAS; do m=$(echo "$a" | sed 's/^o/O/'); printf '%s.run; ' "$m"; done
+  echo ']'
+} > dispatch.ml
+FILES="model.mli model.ml sx.ml"
+for a in $AREAS; do FILES="$FILES $a.ml"; done
+ocamlfind ocamlopt -O3 -w -a $FILES dispatch.ml driver.ml -o driver 2>/dev/null || ocamlfind ocamlopt -w -a $FILES dispatch.ml driver.ml -o driver
